@@ -59,6 +59,25 @@ class Workspace:
         return f"f{self._n}{suffix}"
 
 
+_SINK = None
+
+
+def set_log_level(name: str) -> None:
+    """Ambient state of a run: the level `--debug` / `--info` give jasm's logger (records are formatted by a sink handler and
+    dropped; no log files are written). "warning" is the library default."""
+    global _SINK
+    import logging
+    from jasm import logging_config as lc
+    if _SINK is None:
+        class Sink(logging.Handler):
+            def emit(self, record):
+                record.getMessage()
+        _SINK = Sink(level=logging.DEBUG)
+        lc.logger.addHandler(_SINK)
+        lc.logger.propagate = False
+    lc.logger.setLevel({"debug": logging.DEBUG, "info": logging.INFO, "warning": logging.WARNING}[name])
+
+
 def dump_rule(doc: Any) -> str:
     return yaml.safe_dump(doc, sort_keys=False, default_flow_style=False, width=10000)
 
@@ -111,6 +130,28 @@ def match_twice(rule_path: str, input_path: str, *, binary=False, ret="list", se
         first = list(first) if isinstance(first, list) else first
         second = mop.perform_matching()
         return ("ok", first, second)
+    except BaseException as exc:  # noqa: BLE001
+        if isinstance(exc, (KeyboardInterrupt, SystemExit, MemoryError)):
+            raise
+        return ("exc", type(exc).__name__, str(exc)[:300])
+
+
+def match_sequence(rule_path: str, inputs: List[str], *, binary=False, ret="list", search="all", only_addr=False, macros=None):
+    """ONE MasterOfPuppets object used on several inputs in turn (match_config.input_file is re-pointed between the calls).
+    Returns ("ok", [result per input]) or ("exc", ...)."""
+    try:
+        cfg = gd.MatchConfig(
+            pattern_pathstr=rule_path, input_file=inputs[0],
+            input_file_type=gd.InputFileType.binary if binary else gd.InputFileType.assembly,
+            return_only_address=only_addr, return_mode=getattr(gd.MatchingReturnMode, RETURN[ret]),
+            matching_mode=getattr(gd.MatchingSearchMode, SEARCH[search]), macros=macros)
+        mop = jm.MasterOfPuppets(cfg)
+        out = []
+        for inp in inputs:
+            mop.match_config.input_file = inp
+            v = mop.perform_matching()
+            out.append(list(v) if isinstance(v, list) else v)
+        return ("ok", out)
     except BaseException as exc:  # noqa: BLE001
         if isinstance(exc, (KeyboardInterrupt, SystemExit, MemoryError)):
             raise
